@@ -1834,9 +1834,12 @@ class Process(Instance):
 
         proc_name = self._scope.lookup_name(self)
 
+        # 'process()' is not legal, the body ends with 'wait;' instead
+        sensitivity = f"({sensitivity_list})" if sensitivity_list else ""
+
         return TextBlock(
             content=[
-                f"{proc_name}: process({sensitivity_list})",
+                f"{proc_name}: process{sensitivity}",
                 IndentBlock(self._write_declarations()),
             ],
         )
@@ -1845,6 +1848,11 @@ class Process(Instance):
         return TextBlock(["begin", IndentBlock(self._code.write(self._scope, True))])
 
     def _write_end(self) -> str:
+        if isinstance(self._sensitivity, _SensitivityList):
+            if len(self._sensitivity.signals) == 0:
+                # executed once, like a process that is never triggered
+                return TextBlock([IndentBlock(["wait;"]), "end process;"])
+
         return f"end process;"
 
     def write(self) -> TextBlock:
